@@ -244,7 +244,7 @@ func checkC07(p *Program, r *Report) {
 			r.Fail("R07.1", key, p.Pos(sd.Pos()), "a value that is neither the writer's own generation nor a received token is posted on the writer channel: tokens no longer certify completed writes")
 		}
 	}
-	r.Floor("R07.1", "sends on the writer channel", nSend, 3)
+	r.Floor("R07.1", "sends on the writer channel", nSend, 2)
 
 	// ---- R07.2
 	nPurge := 0
